@@ -53,6 +53,7 @@ def run(ctx):
     ctx.translate(COMPONENTS)
     ctx.prove('props/C03.v')
     L.lockstep(ctx, [L.mon_c03])
+    L.reg_sweep(ctx, L.REG_KINDS['C03'])
     builtin_probe(ctx)
     # the iterator's info-carrying built-in action sends through the channel inside the handler: the
     # bound of a delivery composes with C08 (send completes in a bounded number of its own steps with
@@ -85,6 +86,8 @@ def run(ctx):
 def replay(ctx, path):
     case = json.load(open(path))
     sc = case.get('case', {}).get('scenario')
+    if case.get('case', {}).get('reg_sweep'):
+        return L.reg_replay(ctx, case['case'], L.REG_KINDS['C03'])
     if case.get('case', {}).get('history'):
         import c13
         return c13.replay(ctx, path)
